@@ -3,6 +3,7 @@
   Props.lean.
     G1 `Ctl`   the control skeleton (once-guards, who may be where when the handler is closed)
     G2 `Book`  the handler's bookkeeping (subscriptions map, goroutines, Stop() calls, registry)
+    G3 `Fifo`  the wire is a prefix of what was queued
 -/
 import Mathlib.Data.List.Nodup
 import ApiFu.C08.Model
@@ -933,5 +934,400 @@ theorem book_step {cfg : Cfg} {s : Sys} (hc : Ctl s) (h : Book s) (e : Ev) : Boo
 theorem inv12_reachable (cfg : Cfg) (evs : List Ev) : Ctl (run cfg init evs) ∧ Book (run cfg init evs) :=
   run_induction cfg (fun s => Ctl s ∧ Book s) init ⟨ctl_init, book_init⟩
     (fun _ e h => ⟨ctl_step cfg h.1 e, book_step h.1 h.2 e⟩) evs
+
+/-! ### Termination of the subscription goroutines once the writer is gone -/
+
+theorem findTask_setTask (ts : List Task) (g : Gen) (f : Task → Task) (hf : ∀ t, (f t).gen = t.gen) :
+    findTask (setTask ts g f) g = (findTask ts g).map f := by
+  unfold findTask setTask
+  induction ts with
+  | nil => rfl
+  | cons t rest ih =>
+    rw [List.map_cons, List.find?_cons, List.find?_cons]
+    by_cases h : t.gen = g
+    · have h' : (t.gen == g) = true := by simpa using h
+      simp only [h', ite_true]
+      have : ((f t).gen == g) = true := by rw [hf]; exact h'
+      rw [this]; rfl
+    · have h' : (t.gen == g) = false := by simpa using h
+      simp only [h', Bool.false_eq_true, ite_false]
+      exact ih
+
+def TaskPc.next : TaskPc → TaskPc
+  | .sendData _ => .select
+  | .select => .sendComplete
+  | .sendComplete => .done
+  | .done => .done
+
+def TaskPc.rank : TaskPc → Nat
+  | .sendData _ => 3
+  | .select => 2
+  | .sendComplete => 1
+  | .done => 0
+
+theorem trySend_gone {cfg : Cfg} {s : Sys} (hf : cfg.sendFix = true) (hg : writerGone s = true) (f : SFrame) :
+    trySend cfg s f = (s, .failed) := by
+  unfold trySend; simp [hf, hg]
+
+/-- With the writer gone (fix 03) a cancelled subscription goroutine moves one stage towards `done`
+    with each of its steps; nothing else changes but its `pc` (and a ghost mark). -/
+theorem subTaskStep_gone {cfg : Cfg} {s : Sys} (hf : cfg.sendFix = true) (hg : writerGone s = true)
+    {g : Gen} {t : Task} (ht : findTask s.tasks g = some t) (hc : t.cancelled = true) :
+    let s' := subTaskStep cfg s g
+    writerGone s' = true ∧ ∃ t', findTask s'.tasks g = some t' ∧ t'.cancelled = true ∧ t'.pc = t.pc.next := by
+  intro s'
+  have hfind : ∀ (s0 : Sys) (f : Task → Task), s0.tasks = s.tasks → (∀ t, (f t).gen = t.gen) →
+      findTask (setTask s0.tasks g f) g = some (f t) := by
+    intro s0 f h0 hf'; rw [findTask_setTask _ _ _ hf', h0, ht]; rfl
+  show writerGone (subTaskStep cfg s g) = true ∧ ∃ t', findTask (subTaskStep cfg s g).tasks g = some t' ∧ _
+  unfold subTaskStep
+  rw [ht]
+  simp only []
+  cases hp : t.pc with
+  | select =>
+    simp only [hc, Bool.true_or, ite_true]
+    refine ⟨hg, _, hfind s _ rfl (fun _ => rfl), hc, ?_⟩
+    simp [TaskPc.next]
+  | sendData ev =>
+    simp only [trySend_gone hf hg]
+    refine ⟨hg, _, hfind s _ rfl (fun _ => rfl), hc, ?_⟩
+    simp [TaskPc.next]
+  | sendComplete =>
+    simp only [trySend_gone hf hg]
+    refine ⟨hg, _, hfind s _ rfl (fun _ => rfl), hc, ?_⟩
+    simp [TaskPc.next]
+  | done =>
+    refine ⟨hg, t, ht, hc, ?_⟩
+    simp [TaskPc.next, hp]
+
+theorem rank_next (p : TaskPc) : p.next.rank = p.rank - 1 := by cases p <;> rfl
+
+theorem three_steps_done {cfg : Cfg} {s : Sys} (hf : cfg.sendFix = true) (hg : writerGone s = true)
+    {g : Gen} {t : Task} (ht : findTask s.tasks g = some t) (hc : t.cancelled = true) :
+    ∃ t', findTask (run cfg s [.subTaskStep g, .subTaskStep g, .subTaskStep g]).tasks g = some t' ∧ t'.pc = .done := by
+  obtain ⟨g1, t1, h1, c1, p1⟩ := subTaskStep_gone hf hg ht hc
+  obtain ⟨g2, t2, h2, c2, p2⟩ := subTaskStep_gone hf g1 h1 c1
+  obtain ⟨g3, t3, h3, c3, p3⟩ := subTaskStep_gone hf g2 h2 c2
+  refine ⟨t3, h3, ?_⟩
+  have : t3.pc.rank = 0 := by
+    rw [p3, rank_next, p2, rank_next, p1, rank_next]
+    cases t.pc <;> rfl
+  cases hp : t3.pc <;> simp [hp, TaskPc.rank] at this ⊢
+
+theorem findTask_of_mem {ts : List Task} (hn : (ts.map (·.gen)).Nodup) {t : Task} (ht : t ∈ ts) :
+    findTask ts t.gen = some t := by
+  unfold findTask
+  induction ts with
+  | nil => cases ht
+  | cons a rest ih =>
+    rw [List.map_cons, List.nodup_cons] at hn
+    rcases List.mem_cons.mp ht with rfl | hr
+    · simp
+    · have hne : a.gen ≠ t.gen := fun he => hn.1 (he ▸ List.mem_map.mpr ⟨t, hr, rfl⟩)
+      have : (a.gen == t.gen) = false := by simpa using hne
+      simp [List.find?_cons, this, ih hn.2 hr]
+
+
+/-! ### G3a: FIFO — the wire is a prefix of what was queued -/
+
+def absF (s : Sys) : List SFrame × List SFrame × List SFrame × WriterPc := (enqOf s.log, wireOf s.log, s.outgoing, s.writer)
+
+def writerLive (w : WriterPc) : Bool :=
+  match w with
+  | .loop | .draining _ => true
+  | _ => false
+
+def FifoA (a : List SFrame × List SFrame × List SFrame × WriterPc) : Prop :=
+  ∃ d, a.1 = a.2.1 ++ d ++ a.2.2.1 ∧ (d ≠ [] → writerLive a.2.2.2 = false)
+
+def Fifo (s : Sys) : Prop := FifoA (absF s)
+
+@[simp] theorem enqOf_append (a b : List Out) : enqOf (a ++ b) = enqOf a ++ enqOf b := by simp [enqOf]
+@[simp] theorem wireOf_append (a b : List Out) : wireOf (a ++ b) = wireOf a ++ wireOf b := by simp [wireOf]
+
+def Out.silent : Out → Bool
+  | .wire _ => false
+  | .queued _ => false
+  | _ => true
+
+theorem absF_emit (s : Sys) (o : Out) (h : o.silent = true) : absF (emit s o) = absF s := by
+  cases o <;> simp_all [absF, emit, enqOf, wireOf, Out.silent]
+
+theorem fifo_init : Fifo init := ⟨[], by simp [absF, init, enqOf, wireOf], by simp⟩
+
+theorem fifo_of_abs {s s' : Sys} (he : absF s' = absF s) (h : Fifo s) : Fifo s' := by
+  unfold Fifo; rw [he]; exact h
+
+theorem absF_beginClosing (s : Sys) (c : Nat) : absF (beginClosing s c) = absF s := by
+  unfold beginClosing; split <;> rfl
+
+theorem fifo_trySend {cfg : Cfg} {s : Sys} (h : Fifo s) (f : SFrame) : Fifo (trySend cfg s f).1 := by
+  unfold trySend
+  split
+  · exact h
+  · split
+    · obtain ⟨d, h1, h2⟩ := h
+      refine ⟨d, ?_, h2⟩
+      simp only [absF, emit, enqOf_append, wireOf_append] at h1 ⊢
+      rw [h1, show enqOf [Out.queued f] = [f] from rfl, show wireOf [Out.queued f] = [] from rfl]
+      simp
+    · exact h
+
+theorem absF_doneSending (s : Sys) (tc : Option Nat) : absF (doneSending s tc) = absF s := by
+  unfold doneSending; split
+  · rw [absF_beginClosing]; rfl
+  · rfl
+
+theorem fifo_pump {cfg : Cfg} {s : Sys} (h : Fifo s) (p : List SFrame) (fc : Bool) (tc : Option Nat) :
+    Fifo (pump cfg s p fc tc) := by
+  induction p generalizing s with
+  | nil => unfold pump; exact fifo_of_abs (absF_doneSending s tc) h
+  | cons f rest ih =>
+    unfold pump
+    have h1 := fifo_trySend (cfg := cfg) h f
+    split
+    · rename_i s' heq; rw [heq] at h1; exact ih h1
+    · rename_i s' heq; rw [heq] at h1
+      apply fifo_of_abs (absF_doneSending _ _)
+      split
+      · exact fifo_of_abs (absF_beginClosing _ _) h1
+      · exact h1
+    · rename_i s' heq; rw [heq] at h1; exact h1
+
+
+theorem absF_handlerSide (s s' : Sys) (h1 : s'.log = s.log) (h2 : s'.outgoing = s.outgoing) (h3 : s'.writer = s.writer) :
+    absF s' = absF s := by simp [absF, h1, h2, h3]
+
+theorem absF_callStop (s : Sys) (g : Gen) : absF (callStop s g) = absF s := absF_emit _ _ rfl
+
+theorem absF_stopAll (l : List (Id × Gen)) : ∀ s : Sys, absF (stopAll s l) = absF s := by
+  induction l with
+  | nil => intro s; rfl
+  | cons p rest ih => intro s; unfold stopAll; rw [ih, absF_callStop]
+
+theorem absF_handleClose (s : Sys) : absF (handleClose s) = absF s := by
+  unfold handleClose
+  simp only []
+  split
+  · rw [absF_emit _ _ rfl]
+    exact (absF_handlerSide _ _ rfl rfl rfl).trans (absF_stopAll _ _)
+  · exact (absF_handlerSide _ _ rfl rfl rfl).trans (absF_stopAll _ _)
+
+theorem absF_finishClosing (s : Sys) : absF (finishClosing s) = absF s := by
+  unfold finishClosing; split
+  · rfl
+  · exact (absF_handleClose _).trans rfl
+
+theorem absF_admitSub {cfg : Cfg} {s s' : Sys} {id : Id} (h : admitSub cfg s id = some s') : absF s' = absF s := by
+  unfold admitSub at h
+  split at h
+  · cases h; rfl
+  · split at h
+    · cases h; exact absF_callStop _ _
+    · cases h
+
+theorem absF_startSync (s : Sys) (g : Gen) (id : Id) (k : OpKind) (e : Bool) : absF (startSync s g id k e).1 = absF s := by
+  unfold startSync; cases e
+  · exact absF_emit _ _ rfl
+  · simp only [ite_true]; rw [absF_emit _ _ rfl, absF_emit _ _ rfl]
+
+theorem absF_handleStart (cfg : Cfg) (s : Sys) (g : Gen) (id : Id) (k : OpKind) : absF (handleStart cfg s g id k).1 = absF s := by
+  unfold handleStart
+  cases k <;> simp only [absF_startSync]
+  · split
+    · rfl
+    · rename_i s' ha
+      have : absF (startSub s' g id) = absF s' := by
+        unfold startSub
+        exact (absF_handlerSide _ _ rfl rfl rfl).trans ((absF_emit _ _ rfl).trans (absF_emit _ _ rfl))
+      rw [this]; exact absF_admitSub ha
+  · split
+    · rfl
+    · rename_i s' ha; rw [absF_startSync]; exact absF_admitSub ha
+
+theorem absF_handleStop (s : Sys) (id : Id) : absF (handleStop s id) = absF s := by
+  unfold handleStop; split
+  · rfl
+  · exact absF_callStop _ _
+
+theorem fifo_handle {cfg : Cfg} {s : Sys} (h : Fifo s) (f : CFrame) : Fifo (handle cfg s f) := by
+  have he : Fifo (emit s (.recv f s.didInit)) := fifo_of_abs (absF_emit _ _ rfl) h
+  unfold handle
+  cases f with
+  | close =>
+    simp only []; unfold readerExit
+    apply fifo_of_abs _ he
+    exact (absF_handlerSide _ _ rfl rfl rfl).trans ((absF_beginClosing _ _).trans (absF_handlerSide _ _ rfl rfl rfl))
+  | malformed => simp only []; split; exact he; exact fifo_of_abs (absF_beginClosing _ _) he
+  | init ok =>
+    cases ok <;> simp only [] <;> split
+    · exact fifo_pump he _ _ _
+    · exact fifo_of_abs (absF_beginClosing _ _) he
+    · exact fifo_pump (s := { emit s (.recv (.init true) s.didInit) with didInit := true }) he _ _ _
+    · exact fifo_pump (s := { emit s (.recv (.init true) s.didInit) with didInit := true }) he _ _ _
+  | start id k =>
+    simp only []
+    split
+    · exact fifo_of_abs (absF_handlerSide _ _ rfl rfl rfl) he
+    · apply fifo_pump
+      apply fifo_of_abs (absF_handleStart _ _ _ _ _)
+      exact fifo_of_abs (absF_handlerSide _ _ rfl rfl rfl) he
+  | startBad id => simp only []; split; exact he; split; exact he; exact fifo_of_abs (absF_beginClosing _ _) he
+  | stop id => simp only []; split; exact he; exact fifo_of_abs (absF_handleStop _ _) he
+  | ping =>
+    simp only []; split; exact he
+    split
+    · split; exact he; exact fifo_pump he _ _ _
+    · exact fifo_of_abs (absF_beginClosing _ _) he
+  | pong => exact he
+  | terminate => simp only []; split <;> exact fifo_of_abs (absF_beginClosing _ _) he
+  | unknown => simp only []; split; exact he; exact fifo_of_abs (absF_beginClosing _ _) he
+
+theorem fifo_writerStep {s : Sys} (h : Fifo s) (pick : WPick) : Fifo (writerStep s pick) := by
+  obtain ⟨d, h1, h2⟩ := h
+  simp only [absF] at h1 h2
+  unfold writerStep
+  split
+  · rename_i hw
+    have hd : d = [] := by
+      cases d with
+      | nil => rfl
+      | cons x xs => have := h2 (by simp); rw [hw] at this; simp [writerLive] at this
+    subst hd
+    cases pick <;> simp only []
+    · split
+      · exact ⟨[], h1, by simp⟩
+      · rename_i f q ho
+        split
+        · refine ⟨[], ?_, by simp⟩
+          simp only [absF, emit, enqOf_append, wireOf_append]
+          rw [h1, ho, show enqOf [Out.wire f] = [] from rfl, show wireOf [Out.wire f] = [f] from rfl]; simp
+        · refine ⟨[f], ?_, fun _ => rfl⟩
+          simp only [absF, writerExit]; rw [h1, ho]; simp
+    · split
+      · exact ⟨[], h1, by simp⟩
+      · exact ⟨[], h1, by simp⟩
+    · split
+      · refine ⟨[], ?_, by simp⟩
+        split
+        · simp only [absF, writerExit, emit, enqOf_append, wireOf_append]
+          rw [h1, show enqOf [Out.closeFrame 1000] = [] from rfl, show wireOf [Out.closeFrame 1000] = [] from rfl]; simp
+        · exact h1
+      · exact ⟨[], h1, by simp⟩
+  · rename_i c hw
+    have hd : d = [] := by
+      cases d with
+      | nil => rfl
+      | cons x xs => have := h2 (by simp); rw [hw] at this; simp [writerLive] at this
+    subst hd
+    split
+    · rename_i f q ho
+      split
+      · refine ⟨[], ?_, by simp⟩
+        simp only [absF, emit, enqOf_append, wireOf_append]
+        rw [h1, ho, show enqOf [Out.wire f] = [] from rfl, show wireOf [Out.wire f] = [f] from rfl]; simp
+      · refine ⟨[f], ?_, fun _ => rfl⟩
+        simp only [absF]; rw [h1, ho]; simp
+    · rename_i ho
+      refine ⟨[], ?_, by simp⟩
+      split
+      · simp only [absF, emit, enqOf_append, wireOf_append]
+        rw [h1, show enqOf [Out.closeFrame c] = [] from rfl, show wireOf [Out.closeFrame c] = [] from rfl]; simp
+      · exact h1
+  · exact ⟨d, h1, fun _ => rfl⟩
+  · split
+    · refine ⟨d, ?_, fun _ => rfl⟩
+      have := absF_finishClosing s
+      simp only [absF, Prod.mk.injEq] at this ⊢
+      rw [this.1, this.2.1, this.2.2.1]; exact h1
+    · exact ⟨d, h1, h2⟩
+  · exact ⟨d, h1, h2⟩
+
+
+theorem fifo_subTaskStep {cfg : Cfg} {s : Sys} (h : Fifo s) (g : Gen) : Fifo (subTaskStep cfg s g) := by
+  unfold subTaskStep
+  split
+  · exact h
+  · split
+    · split
+      · exact fifo_of_abs ((absF_emit _ _ rfl).trans (absF_handlerSide _ _ rfl rfl rfl)) h
+      · exact h
+    · split
+      · rename_i s' heq; have h1 := congrArg Prod.fst heq; simp at h1; rw [← h1]; exact fifo_trySend h _
+      · rename_i s' r _ heq; have h1 := congrArg Prod.fst heq; simp at h1
+        exact fifo_of_abs (absF_handlerSide _ _ rfl rfl rfl) (h1 ▸ fifo_trySend h _)
+    · split
+      · rename_i s' heq; have h1 := congrArg Prod.fst heq; simp at h1; rw [← h1]; exact fifo_trySend h _
+      · rename_i s' r _ heq; have h1 := congrArg Prod.fst heq; simp at h1
+        exact fifo_of_abs (absF_handlerSide _ _ rfl rfl rfl) (h1 ▸ fifo_trySend h _)
+    · exact h
+
+theorem fifo_sourceStep {s : Sys} (h : Fifo s) (g : Gen) (e : SrcEv) : Fifo (sourceStep s g e) := by
+  unfold sourceStep
+  split
+  · exact fifo_of_abs (absF_handlerSide _ _ rfl rfl rfl) h
+  · split
+    · exact h
+    · split
+      · exact fifo_of_abs ((absF_emit _ _ rfl).trans (absF_handlerSide _ _ rfl rfl rfl)) h
+      · exact h
+
+theorem fifo_step {cfg : Cfg} {s : Sys} (h : Fifo s) (e : Ev) : Fifo (stepS cfg s e) := by
+  unfold stepS
+  cases e with
+  | client f => simp only []; split; exact fifo_handle h f; exact h
+  | source g e => exact fifo_sourceStep h g e
+  | readerStep =>
+    simp only []
+    split
+    · split
+      · unfold readerExit
+        exact fifo_of_abs ((absF_handlerSide _ _ rfl rfl rfl).trans (absF_beginClosing _ _)) h
+      · exact h
+    · exact fifo_pump h _ _ _
+    · exact h
+  | writerStep pick => exact fifo_writerStep h pick
+  | subTaskStep g => exact fifo_subTaskStep h g
+  | netDrop => exact fifo_of_abs (absF_handlerSide _ _ rfl rfl rfl) h
+  | serverClose =>
+    simp only []
+    split
+    · apply fifo_of_abs ((absF_handlerSide _ _ rfl rfl rfl).trans (absF_beginClosing _ _))
+      split
+      · exact fifo_of_abs ((absF_emit _ _ rfl).trans (absF_handlerSide _ _ rfl rfl rfl)) h
+      · exact h
+    · split
+      · exact fifo_of_abs ((absF_handlerSide _ _ rfl rfl rfl).trans (absF_finishClosing _)) h
+      · exact h
+    · exact h
+
+theorem fifo_reachable (cfg : Cfg) (evs : List Ev) : Fifo (run cfg init evs) :=
+  run_induction cfg Fifo init fifo_init (fun _ e h => fifo_step h e) evs
+
+/-- The wire is a prefix of what was queued; while the writer is in its loops they differ exactly by the buffer. -/
+theorem wire_prefix (cfg : Cfg) (evs : List Ev) :
+    wireOf (run cfg init evs).log <+: enqOf (run cfg init evs).log ∧
+    (writerLive (run cfg init evs).writer = true →
+      enqOf (run cfg init evs).log = wireOf (run cfg init evs).log ++ (run cfg init evs).outgoing) := by
+  obtain ⟨d, h1, h2⟩ := fifo_reachable cfg evs
+  simp only [absF] at h1 h2
+  constructor
+  · exact ⟨d ++ (run cfg init evs).outgoing, by rw [h1]; simp⟩
+  · intro hw
+    have : d = [] := by
+      cases d with
+      | nil => rfl
+      | cons x xs => have := h2 (by simp); rw [hw] at this; cases this
+    rw [h1, this]; simp
+
+
+theorem mem_execSubsOf (g : Gen) (log : List Out) : g ∈ execSubsOf log ↔ Out.exec g .subscription ∈ log := by
+  unfold execSubsOf
+  rw [List.mem_filterMap]
+  constructor
+  · rintro ⟨o, ho, he⟩
+    match o, he with
+    | .exec g' .subscription, he => simp at he; subst he; exact ho
+  · intro h; exact ⟨_, h, rfl⟩
 
 end ApiFu.C08
